@@ -1301,6 +1301,28 @@ def analyse_dumper(chk, m, fn, depth=0, top=True):
             r = p.ret
             okr = r is not None and strip_casts(r) == ("arg", szarg)
             chk.ob("H4.returns-size", pid, okr, "returns the original size (got %s)" % fmt(r)[:40], p.ret_inst.loc, fn.name)
+    # an empty array: nothing is printed and the function returns at once (a complete path exists for size 0 that writes
+    # nothing); a line count computed as (size - 1) / 16 + 1 wraps here and walks off the array
+    if top:
+        empty_ok = None
+        for p in ps:
+            if paths.is_assert_fail_path(p) or any(v >= 2 for v in p.edge_count.values()):
+                continue
+            try:
+                if all(paths.cond_holds(cd, {("arg", szarg): 0}) for cd in p.conds):
+                    outs = [e for e in p.events if e.kind == "call" and isinstance(e.callee, str) and not e.callee.startswith("llvm.")
+                            and e.callee not in paths.pure_functions(m)]
+                    empty_ok = not outs
+                    break
+            except NoValue:
+                empty_ok = None
+                break
+        if empty_ok is None:
+            chk.ob("H4.empty-input", fn.name, False,
+                   "with size 0 no path returns within two rounds of each loop: the function keeps reading (and printing) although "
+                   "there is nothing to dump - the byte / line count wraps for an empty array", fn.loc, fn.name)
+        else:
+            chk.ob("H4.empty-input", fn.name, empty_ok, "with size 0 the function returns without writing anything", fn.loc, fn.name)
     # per-line limit from the loop counter (the unrolling bound cannot see it)
     if top:
         limit = None
